@@ -102,6 +102,11 @@ def gen_cases(tier, seed):
     cases = []
     for lo in range(0, len(items), BLOCK):
         cases.append(dict(items=items[lo:lo + BLOCK], seed=seed))
+    # hand-built graphs outside the op grammar (added after seeded changes were missed): autograd nodes that are not instances of
+    # torch.autograd.graph.Node's registered classes (a fused TorchScript block, a Python Function) strictly inside the graph; features
+    # that are VIEWS of a non-leaf tensor while a loss consumes the base or another view of it (the default sets then overlap)
+    cases.append(dict(items=[], special="foreign-nodes", seed=seed))
+    cases.append(dict(items=[], special="view-features", seed=seed))
     return cases
 
 
@@ -126,11 +131,131 @@ def _try(fn):
         return e
 
 
+_SCRIPTED = {}
+
+
+def _scripted_block():
+    """A TorchScript function, warmed up so that the profiling executor has specialised it: its backward is then ONE fused C++ node."""
+    import torch
+
+    if "f" not in _SCRIPTED:
+        @torch.jit.script
+        def block(x: torch.Tensor, w: torch.Tensor, b: torch.Tensor) -> torch.Tensor:
+            return torch.tanh(x * w + b) * b
+
+        for _ in range(4):
+            w = torch.tensor([0.5, -1.0, 2.0], dtype=torch.float64, requires_grad=True)
+            b = torch.tensor([1.5, 0.3, -0.7], dtype=torch.float64, requires_grad=True)
+            block(torch.tensor([0.2, 0.4, 0.6], dtype=torch.float64), w, b).sum().backward()
+        _SCRIPTED["f"] = block
+    return _SCRIPTED["f"]
+
+
+def _run_special(case):
+    import torch
+    from torchjd import backward, mtl_backward
+    from torchjd.aggregation import Constant
+
+    from mc.seams import NoVmapIdentity
+
+    T = lambda v: torch.tensor(v, dtype=torch.float64, requires_grad=True)  # noqa: E731
+    viol, outcomes, execs = [], set(), 0
+    agg = lambda m: Constant(torch.tensor([3.0, -2.0, 5.0][:m], dtype=torch.float64))  # noqa: E731
+
+    def grads(ps):
+        return [None if p.grad is None else p.grad.detach().clone() for p in ps]
+
+    def same(ga, gb):
+        return all((x is None) == (y is None) and (x is None or float((x - y).abs().max()) <= 1e-12 * max(1.0, float(y.abs().max()))) for x, y in zip(ga, gb))
+
+    if case["special"] == "foreign-nodes":
+        for variant in ("torchscript", "python-function", "torchscript-root"):
+            def build():
+                w, b, u, p1, p2 = T([0.5, -1.0, 2.0]), T([1.5, 0.3, -0.7]), T([0.1, 0.2, 0.3]), T([1.0, 2.0, 3.0]), T([-1.0, 0.5, 2.0])
+                x = torch.tensor([0.2, 0.4, 0.6], dtype=torch.float64)
+                if variant == "python-function":
+                    h = NoVmapIdentity.apply(torch.tanh(x * w + b) * b)
+                else:
+                    h = _scripted_block()(x, w, b)
+                f = h if variant == "torchscript-root" else torch.relu(h + u) * 2.0  # the foreign node strictly inside the graph of the features
+                extra = [] if variant == "torchscript-root" else [u]
+                return dict(trunk=[w, b] + extra, heads=[[p1], [p2]], f=f, losses=[(f * p1).sum(), (f * f * p2).sum()])
+
+            for ep in ("bw", "mtl", "mtl-default-tasks"):
+                A, B = build(), build()
+                allA, allB = A["trunk"] + [p for h in A["heads"] for p in h], B["trunk"] + [p for h in B["heads"] for p in h]
+                execs += 2
+                try:
+                    if ep == "bw":
+                        backward(A["losses"], agg(2), parallel_chunk_size=1)
+                        backward(B["losses"], agg(2), inputs=allB, parallel_chunk_size=1)
+                    elif ep == "mtl":
+                        mtl_backward(A["losses"], A["f"], agg(2), tasks_params=A["heads"], parallel_chunk_size=1)
+                        mtl_backward(B["losses"], B["f"], agg(2), tasks_params=B["heads"], shared_params=B["trunk"], parallel_chunk_size=1)
+                    else:
+                        mtl_backward(A["losses"], A["f"], agg(2), parallel_chunk_size=1)
+                        mtl_backward(B["losses"], B["f"], agg(2), tasks_params=B["heads"], shared_params=B["trunk"], parallel_chunk_size=1)
+                except Exception as e:
+                    viol.append(dict(sig=f"exception:special:{type(e).__name__}", msg=f"foreign-nodes {variant} {ep}: {e!r}"[:400]))
+                    continue
+                ga, gb = grads(allA), grads(allB)
+                outcomes.add(f"fn:{variant}:{ep}:{[g is None for g in ga]}")
+                if not same(ga, gb):
+                    viol.append(dict(sig=f"default-vs-explicit-grads:foreign-node:{ep}", cls=f"foreign:{variant}:{ep}",
+                                     msg=f"graph with a {variant} node, {ep}: defaulted call leaves .grad {[None if g is None else g.tolist() for g in ga]}, "
+                                         f"the call with the explicit leaves {[None if g is None else g.tolist() for g in gb]}"[:900]))
+        return dict(viol=viol, execs=execs, outcomes=sorted(outcomes), nontrivial=len(outcomes))
+
+    # view-features
+    views = {"flatten": lambda h: h.flatten(), "t": lambda h: h.t(), "row": lambda h: h[0], "view": lambda h: h.view(4), "unsqueeze": lambda h: h.unsqueeze(0),
+             "identity(no view)": lambda h: h * 1.0}
+    for vname, view in views.items():
+        for consumer in ("base", "other-view", "feature-only"):
+            for tasks_mode in ("default", "explicit"):
+                a, b, p1, p2 = T([[0.5, -1.0], [2.0, 1.5]]), T(0.7), T(1.3), T(-0.4)
+                h = torch.sin(a) * b  # non-leaf base
+                f = view(h)
+                l1 = (f * p1).sum()
+                if consumer == "base":
+                    l2 = h.sum() * p2
+                elif consumer == "other-view":
+                    l2 = h.reshape(-1)[1:].sum() * p2
+                else:
+                    l2 = (f * f).sum() * p2
+                # model: loss 2 reaches a and b without passing through the feature tensor unless it consumes the feature itself
+                overlap = consumer != "feature-only"
+                execs += 1
+                pre = grads([a, b, p1, p2])
+                try:
+                    if tasks_mode == "default":
+                        mtl_backward([l1, l2], f, agg(2))
+                    else:
+                        mtl_backward([l1, l2], f, agg(2), tasks_params=[[p1], [p2, a, b] if overlap else [p2]], shared_params=[a, b])
+                    err = None
+                except Exception as e:
+                    err = e
+                where = f"features = {vname} of a non-leaf base, loss 2 consumes {consumer}, tasks_params {tasks_mode}"
+                outcomes.add(f"vf:{vname}:{consumer}:{tasks_mode}:{type(err).__name__}")
+                if overlap:
+                    if not isinstance(err, ValueError):
+                        viol.append(dict(sig=f"overlapping-defaults-not-rejected:view-features:{tasks_mode}", cls=f"viewfeat:{vname}:{consumer}:{tasks_mode}",
+                                         msg=f"{where}: loss 2 reaches the shared leaves without passing through the feature tensor, the sets overlap; got {err!r}"[:500]))
+                    elif not same(grads([a, b, p1, p2]), pre) or any(g is not None for g in grads([a, b, p1, p2])):
+                        viol.append(dict(sig="rejected-call-modified-grad:view-features", msg=where))
+                elif err is not None:
+                    viol.append(dict(sig=f"exception:special:{type(err).__name__}", msg=f"{where}: {err!r}"[:400]))
+                elif any(g is None for g in grads([a, b, p1, p2])):
+                    viol.append(dict(sig="default-vs-explicit-grads:view-features", msg=f"{where}: .grad missing {[g is None for g in grads([a, b, p1, p2])]}"))
+    return dict(viol=viol, execs=execs, outcomes=sorted(outcomes), nontrivial=len(outcomes))
+
+
 def run_case(case):
     import torch
     from torchjd import backward, mtl_backward
     from torchjd.aggregation import Constant
 
+    if case.get("special"):
+        return _run_special(case)
     viol, outcomes, execs, nontriv = [], set(), 0, 0
     W = [1.0, -2.0, 3.0, 5.0, -7.0, 11.0, 13.0, -17.0]
     for kind, prog, X, L in case["items"]:
